@@ -36,7 +36,7 @@ TRANSFORMS = {
     "log10": numpy.log10,
     "log2": numpy.log2,
     "exp": numpy.exp,
-    "exp10": lambda x: numpy.power(x, 10),
+    "exp10": lambda x: numpy.power(10.0, x),
     "exp2": numpy.exp2,
     # Bespoke transforms
     "bs": basis_spline,
